@@ -1,5 +1,6 @@
 pub mod bus;
 pub mod irq;
+pub mod lcd;
 pub mod mbc;
 pub mod sm83;
 pub mod timer;
